@@ -315,8 +315,8 @@ func (w *World) slashJail(p *providertypes.SlashJailParameters) map[string]any {
 		return map[string]any{"frac": "nil", "jail": 0, "tomb": false, "fracBp": 0}
 	}
 	jail := int64(p.JailDuration.Seconds())
-	if jail > 2_000_000_000 {
-		jail = 2_000_000_000
+	if jail > TimeClamp {
+		jail = TimeClamp // "forever": anything beyond what 32-bit TLC integers can hold
 	}
 	return map[string]any{"frac": p.SlashFraction.String(), "jail": jail, "tomb": p.Tombstone, "fracBp": p.SlashFraction.MulInt64(10000).TruncateInt64()}
 }
